@@ -335,7 +335,8 @@ func (c14) w4(sc core.Scenario, r *core.R) {
 // writer stays busy for several seconds; a second call completes meanwhile and its response has to wait
 // for the writer. Both responses must arrive whole, and nothing else may appear on the wire.
 func (c14) slowPeer(sc core.Scenario, r *core.R) {
-	env := NewEnv(EnvOpt{})
+	// keepalive runs at a high rate in both directions: ping ticks and pongs queue up behind the busy writer
+	env := NewEnv(EnvOpt{ServerOpts: []jsonrpc.ServerOption{jsonrpc.WithServerPingInterval(100 * time.Millisecond)}})
 	defer env.Shutdown()
 	pol := noisePolicy(sc)
 	writerBusy := make(chan struct{})
@@ -347,7 +348,7 @@ func (c14) slowPeer(sc core.Scenario, r *core.R) {
 		}
 	}})
 	defer pol.Install()()
-	cl, err := env.NewClient(ClientOpt{Opts: []jsonrpc.Option{jsonrpc.WithNoReconnect()}})
+	cl, err := env.NewClient(ClientOpt{Opts: []jsonrpc.Option{jsonrpc.WithNoReconnect(), jsonrpc.WithPingInterval(200 * time.Millisecond)}})
 	if err != nil {
 		r.Inconclusive("client: %v", err)
 		return
